@@ -145,18 +145,12 @@ example : skipWhitespaces nvFile 8 .spaces = (10, some (9, .spacesErr)) ∧ read
 /-- the facts the model takes from the source (regenerated on every run) -/
 theorem c09_facts :
     Facts.wsBytes = [32, 9, 10, 12] ∧ Facts.wsBreakBytes = [10, 12] ∧
-    Facts.readerReadRune = "cur:=int(pos)-r.file.offset;cur>=r.file.len;ch<utf8.RuneSelf;int8(ch)==int8(r.file.data[cur]);nextRune==ch" ∧
-    Facts.readerMatchString = "str==\"\";cur:=int(pos)-r.file.offset;len(str)>len(r.file.data)-cur;bytes.HasPrefix(r.file.data[cur:],[]byte(str))" ∧
-    Facts.readerMatchWord = "word==\"\";cur:=int(pos)-r.file.offset;len(word)>len(r.file.data)-cur;b>=utf8.RuneSelf;b!=r.file.data[cur+i];len(r.file.data)-cur-len(word)==0||!isWordCharacter(r.file.data[cur+len(word)])" ∧
-    Facts.readerReadRegexp = "cur:=int(pos)-r.file.offset;cur>=r.file.len;indices==nil" ∧
-    Facts.readerReadf = "cur:=int(pos)-r.file.offset;cur>=r.file.len;nextPos==0;value!=nil;nextPos<len(value)||cur+nextPos>r.file.len" ∧
-    Facts.wsNlCond = "(r.file.data[cur]=='\\n'||r.file.data[cur]=='\\f')&&nlPos==0" ∧
     Facts.regexpWrap = "\"^(?:\"+expr+\")\"" :=
-  ⟨by decide, by decide, rfl, rfl, rfl, rfl, rfl, rfl, rfl⟩
+  ⟨by decide, by decide, rfl⟩
 
-theorem c09_facts_wsmodes :
-    Facts.wsModeCases = "wsMode==WsNone&&cur>int(pos)-r.file.offset=>returnr.file.Pos(cur),parsley.NewError(pos,wsNoneErr);wsMode==WsSpacesForceNl&&nlPos==0=>returnr.file.Pos(cur),parsley.NewError(r.file.Pos(cur),wsSpacesForceNlErr);wsMode==WsSpaces&&nlPos>0=>returnr.file.Pos(cur),parsley.NewError(nlPos,wsSpacesErr)" :=
-  rfl
+/- (the condition lists of ReadRune / MatchString / MatchWord / ReadRegexp / Readf and of SkipWhitespaces, formerly pinned here as
+   text, are subsumed: the functions are translated from the source on every run and proved equal to the model - Props/C09P.lean,
+   Props/C10P.lean, both built and audited by this property's check; an equivalent rewrite of the source no longer alarms) -/
 
 /-- the expressions of Remaining, IsEOF and isWordCharacter, TRANSLATED from the Go source on every run
     (Generated/FactsFn.lean), are the model's definitions -/
